@@ -1,4 +1,224 @@
-(* Executable interface of the Uper layer (op codes 1200..1299). Stub until the layer is built. *)
-From A1 Require Import Base.Res.
+(* Executable interface of the L2 model (UperWriter / UperReader). *)
+From A1 Require Import Uper.Reader.
 Local Open Scope Z_scope.
-Definition run_uper (m : mode) (op : Z) (a : list Z) : list Z := [-1].
+
+Definition zs (l : list N) : list Z := map Z.of_N l.
+Definition zb (b : bool) : Z := if b then 1 else 0.
+Definition optn (z : Z) : option N := if z <? 0 then None else Some (Z.to_N z).
+
+Definition nx (l : list Z) : Z * list Z := match l with x :: r => (x, r) | [] => (0, []) end.
+Definition take (n : Z) (l : list Z) : list Z * list Z := (firstn (Z.to_nat n) l, skipn (Z.to_nat n) l).
+
+Definition kind_of (z : Z) : ikind :=
+  match z with 0 => U8 | 1 => I8 | 2 => U16 | 3 => I16 | 4 => U32 | 5 => I32 | 6 => U64 | _ => I64 end.
+Definition cset_of (z : Z) : cset :=
+  match z with 0 => Utf8 | 1 => Ia5 | 2 => Numeric | 3 => Printable | _ => Visible end.
+
+Definition size3 (l : list Z) : (option N * option N * bool) * list Z :=
+  let '(lo, l) := nx l in let '(hi, l) := nx l in let '(e, l) := nx l in
+  ((optn lo, optn hi, negb (e =? 0)), l).
+
+Fixpoint parse_val (fuel : nat) (l : list Z) : val * list Z :=
+  match fuel with
+  | O => (VNull, [])
+  | S f =>
+      let '(tag, l) := nx l in
+      match tag with
+      | 0 => let '(b, l) := nx l in (VBool (negb (b =? 0)), l)
+      | 1 => (VNull, l)
+      | 2 => let '(z, l) := nx l in (VInt z, l)
+      | 3 => let '(n, l) := nx l in let '(cs, l) := take n l in (VStr (map Z.to_N cs), l)
+      | 4 => let '(n, l) := nx l in let '(bs, l) := take n l in (VOctets (map Z.to_N bs), l)
+      | 5 => let '(bl, l) := nx l in let '(n, l) := nx l in let '(bs, l) := take n l in
+             (VBits (map Z.to_N bs) (Z.to_N bl), l)
+      | 6 => let '(n, l) := nx l in
+             let '(vs, l) :=
+               (fix go (k : nat) (l : list Z) (acc : list val) : list val * list Z :=
+                  match k with
+                  | O => (frev acc, l)
+                  | S k' => let '(v, l) := parse_val f l in go k' l (v :: acc)
+                  end) (Z.to_nat n) l [] in
+             (VList vs, l)
+      | 7 => let '(n, l) := nx l in
+             let '(vs, l) :=
+               (fix go (k : nat) (l : list Z) (acc : list (option val)) : list (option val) * list Z :=
+                  match k with
+                  | O => (frev acc, l)
+                  | S k' =>
+                      let '(p, l) := nx l in
+                      if p =? 0 then go k' l (None :: acc)
+                      else let '(v, l) := parse_val f l in go k' l (Some v :: acc)
+                  end) (Z.to_nat n) l [] in
+             (VSeq vs, l)
+      | 8 => let '(i, l) := nx l in let '(v, l) := parse_val f l in (VChoice (Z.to_N i) v, l)
+      | _ => let '(i, l) := nx l in (VEnum (Z.to_N i), l)
+      end
+  end.
+
+Fixpoint parse_ty (fuel : nat) (l : list Z) : ty * list Z :=
+  match fuel with
+  | O => (TNull, [])
+  | S f =>
+      let '(tag, l) := nx l in
+      match tag with
+      | 0 => (TBool, l)
+      | 1 => (TNull, l)
+      | 2 => let '(k, l) := nx l in
+             let '(hl, l) := nx l in let '(lo, l) := nx l in
+             let '(hh, l) := nx l in let '(hi, l) := nx l in
+             let '(e, l) := nx l in
+             (TInt (kind_of k) (if hl =? 0 then None else Some lo) (if hh =? 0 then None else Some hi) (negb (e =? 0)), l)
+      | 3 => let '(c, l) := nx l in let '(s, l) := size3 l in
+             let '(lo, hi, e) := s in (TStr (cset_of c) lo hi e, l)
+      | 4 => let '(s, l) := size3 l in let '(lo, hi, e) := s in (TOctets lo hi e, l)
+      | 5 => let '(s, l) := size3 l in let '(lo, hi, e) := s in (TBitStr lo hi e, l)
+      | 6 => let '(s, l) := size3 l in let '(lo, hi, e) := s in
+             let '(t, l) := parse_ty f l in (TListOf t lo hi e, l)
+      | 7 => let '(so, l) := nx l in let '(fc, l) := nx l in let '(ea, l) := nx l in let '(n, l) := nx l in
+             let '(fs, l) :=
+               (fix go (k : nat) (l : list Z) (acc : list (fkind * ty)) : list (fkind * ty) * list Z :=
+                  match k with
+                  | O => (frev acc, l)
+                  | S k' =>
+                      let '(fk, l) := nx l in
+                      let '(kind, l) :=
+                        (match fk with
+                         | 0 => (FReq, l)
+                         | 1 => (FOpt, l)
+                         | _ => let '(d, l) := parse_val (S (length l)) l in (FDef d, l)
+                         end) in
+                      let '(t, l) := parse_ty f l in
+                      go k' l ((kind, t) :: acc)
+                  end) (Z.to_nat n) l [] in
+             (TSeq fs (Z.to_N so) (Z.to_N fc) (optn ea), l)
+      | 8 => let '(std, l) := nx l in let '(e, l) := nx l in let '(n, l) := nx l in
+             let '(alts, l) :=
+               (fix go (k : nat) (l : list Z) (acc : list ty) : list ty * list Z :=
+                  match k with
+                  | O => (frev acc, l)
+                  | S k' => let '(t, l) := parse_ty f l in go k' l (t :: acc)
+                  end) (Z.to_nat n) l [] in
+             (TChoice alts (Z.to_N std) (negb (e =? 0)), l)
+      | _ => let '(vc, l) := nx l in let '(std, l) := nx l in let '(e, l) := nx l in
+             (TEnum (Z.to_N vc) (Z.to_N std) (negb (e =? 0)), l)
+      end
+  end.
+
+Fixpoint enc_val (v : val) : list Z :=
+  match v with
+  | VBool b => [0; zb b]
+  | VNull => [1]
+  | VInt z => [2; z]
+  | VStr cs => 3 :: Z.of_nat (length cs) :: zs cs
+  | VOctets bs => 4 :: Z.of_nat (length bs) :: zs bs
+  | VBits bs bl => 5 :: Z.of_N bl :: Z.of_nat (length bs) :: zs bs
+  | VList vs => 6 :: Z.of_nat (length vs) :: flat_map enc_val vs
+  | VSeq fs => 7 :: Z.of_nat (length fs) ::
+               flat_map (fun o => match o with Some x => 1 :: enc_val x | None => [0] end) fs
+  | VChoice i x => 8 :: Z.of_N i :: enc_val x
+  | VEnum i => [9; Z.of_N i]
+  end.
+
+Definition enc_rd (r : res (val * rst)) : list Z * option rst :=
+  match r with
+  | Ok (v, r') => (0 :: enc_val v, Some r')
+  | Err e => ([1; Z.of_N e], None)
+  | Panic p => ([2; Z.of_N p], None)
+  end.
+
+Definition enc_rem (m : mode) (r : rst) : list Z :=
+  match src_remaining m (r_src r) with
+  | Ok n => [0; Z.of_N n]
+  | Err e => [1; Z.of_N e]
+  | Panic p => [2; Z.of_N p]
+  end.
+
+Definition reader_on (w : wst) : rst :=
+  let b := w_bits w in
+  r_of_src (src_of_bytes (bytes_of_bits b) (N.of_nat (length b))).
+
+Fixpoint parse_pairs (k : nat) (l : list Z) : list (ty * val) :=
+  match k with
+  | O => []
+  | S k' =>
+      let '(t, l) := parse_ty (S (length l)) l in
+      let '(v, l) := parse_val (S (length l)) l in
+      (t, v) :: parse_pairs k' l
+  end.
+
+Fixpoint write_all (m : mode) (i : Z) (tvs : list (ty * val)) (w : wst) : res wst + (N * Z) :=
+  match tvs with
+  | [] => inl (Ok w)
+  | (t, v) :: r =>
+      match write_ty m t v w with
+      | Ok w' => write_all m (i + 1) r w'
+      | Err e => inr (e, i)
+      | Panic p => inl (Panic p)
+      end
+  end.
+
+Fixpoint read_all (m : mode) (tvs : list (ty * val)) (r : rst) : list Z :=
+  match tvs with
+  | [] => enc_rem m r
+  | (t, _) :: rest =>
+      match enc_rd (read_ty m t r) with
+      | (o, Some r') => o ++ read_all m rest r'
+      | (o, None) => o
+      end
+  end.
+
+Definition sentinel_ty : ty := TInt U8 (Some 0) (Some 255) false.
+
+Definition run_uper (m : mode) (op : Z) (a : list Z) : list Z :=
+  match op with
+  | 1201 =>
+      let '(k, l) := nx a in
+      let tvs := parse_pairs (Z.to_nat k) l in
+      match write_all m 0 tvs w_empty with
+      | inr (e, i) => [1; Z.of_N e; i]
+      | inl (Err e) => [1; Z.of_N e]
+      | inl (Panic p) => [2; Z.of_N p]
+      | inl (Ok w) =>
+          let b := w_bits w in
+          let bytes := bytes_of_bits b in
+          0 :: Z.of_nat (length b) :: Z.of_nat (length bytes) :: zs bytes ++ read_all m tvs (reader_on w)
+      end
+  | 1202 =>
+      let '(t, l) := parse_ty (S (length a)) a in
+      let '(bl, bytes) := nx l in
+      let r := r_of_src (src_of_bytes (map Z.to_N bytes) (Z.to_N bl)) in
+      match read_ty m t r with
+      | Ok (v, r') => 0 :: enc_val v ++ enc_rem m r'
+      | Err e => [1; Z.of_N e; 0]
+      | Panic p => [2; Z.of_N p; 0]
+      end
+  | 1203 =>
+      let '(ta, l) := parse_ty (S (length a)) a in
+      let '(tb, l) := parse_ty (S (length l)) l in
+      let '(v, _) := parse_val (S (length l)) l in
+      match write_ty m ta v w_empty with
+      | Err e => [1; Z.of_N e]
+      | Panic p => [2; Z.of_N p]
+      | Ok w =>
+          let vlen := w_n w in
+          match write_ty m sentinel_ty (VInt 165) w with
+          | Err e => [1; Z.of_N e]
+          | Panic p => [2; Z.of_N p]
+          | Ok w =>
+              let b := w_bits w in
+              let bytes := bytes_of_bits b in
+              let hdr := 0 :: Z.of_N vlen :: Z.of_nat (length b) :: Z.of_nat (length bytes) :: zs bytes in
+              match enc_rd (read_ty m tb (reader_on w)) with
+              | (o, None) => hdr ++ o
+              | (o, Some r) =>
+                  match read_ty m sentinel_ty r with
+                  | Ok (VInt s, r') => hdr ++ o ++ [0; s] ++ enc_rem m r'
+                  | Ok (_, r') => hdr ++ o ++ [0; -1] ++ enc_rem m r'
+                  | Err e => hdr ++ o ++ [1; Z.of_N e]
+                  | Panic p => hdr ++ o ++ [2; Z.of_N p]
+                  end
+              end
+          end
+      end
+  | _ => [-1]
+  end.
